@@ -173,6 +173,10 @@ theorem tokens_no_delim (d s : List Nat) : ∀ t ∈ Spec.Split.tokens d s, ∀ 
 theorem tokens_maximal (d s : List Nat) : Spec.Split.Runs (d.contains ·) s (Spec.Split.tokens d s) :=
   tokens_runs d s
 
+/-- … and `Runs` pins the token list down: any list of runs satisfying it is the result of `tokenize` -/
+theorem tokens_exactly (d s : List Nat) (ts : List (List Nat)) (h : Spec.Split.Runs (d.contains ·) s ts) :
+    ts = Spec.Split.tokens d s := runs_unique _ s ts _ h (tokens_runs d s)
+
 /-! ### replace -/
 
 /-- the result fits `size_t` (always the case for strings that exist) -/
